@@ -119,6 +119,14 @@ func c17map(r *rand.Rand) map[string]interface{} {
 		}
 		root["sec"] = secs
 	}
+	if r.Intn(3) == 0 {
+		// a top-level list with spare capacity (whatever key Go's map iteration yields first may be this one)
+		spare := make(jv.L, 0, 16)
+		for j, k := 0, 1+r.Intn(3); j < k; j++ {
+			spare = append(spare, scalar())
+		}
+		root[[]string{"a", "spare", "b"}[r.Intn(3)]] = spare
+	}
 	if r.Intn(2) == 0 {
 		// more values than the initial result capacity of the query functions
 		wide := jv.L{}
@@ -174,6 +182,45 @@ func c17purity(c *core.Ctx) {
 	if r.Intn(6) == 0 {
 		c.Add("purity:aliased-submaps", int64(jv.Alias(r, root, 1+r.Intn(2), func(k string) bool { return strings.HasPrefix(k, "-") || k == "#text" })))
 	}
+	// canaries in the spare capacity of every list of the receiver: a query that collects results by appending to a list
+	// it found in the receiver writes there without changing anything a comparison of the Map can see
+	type canaryT struct {
+		l    []interface{}
+		full []interface{}
+	}
+	var canaries []canaryT
+	var plant func(v interface{})
+	plant = func(v interface{}) {
+		switch t := v.(type) {
+		case map[string]interface{}:
+			for _, e := range t {
+				plant(e)
+			}
+		case []interface{}:
+			if cap(t) > len(t) {
+				full := t[:cap(t)]
+				for i := len(t); i < len(full); i++ {
+					full[i] = "CANARY"
+				}
+				canaries = append(canaries, canaryT{t, full})
+			}
+			for _, e := range t {
+				plant(e)
+			}
+		}
+	}
+	plant(root)
+	canariesIntact := func() bool {
+		for _, cn := range canaries {
+			for i := len(cn.l); i < len(cn.full); i++ {
+				if s, ok := cn.full[i].(string); !ok || s != "CANARY" {
+					return false
+				}
+			}
+		}
+		return true
+	}
+	c.Add("purity:spare-capacity-canaries", int64(len(canaries)))
 	m := mxj.Map(root)
 	before := jv.Fp(root)
 	orig := jv.Copy(root)
@@ -185,6 +232,10 @@ func c17purity(c *core.Ctx) {
 		c.Count("purity:method-calls")
 		if after := jv.Fp(root); after != before {
 			c.Violate("c17-receiver-modified:"+name, name+" modified its receiver", core.D{"method": name, "before": before, "after": after, "first_difference": jv.Diff(orig, root)})
+			return false
+		}
+		if !canariesIntact() {
+			c.Violate("c17-receiver-modified:"+name, name+" wrote into the spare capacity of a list of its receiver (its result shares that list's storage)", core.D{"method": name, "map": before})
 			return false
 		}
 		return true
@@ -639,6 +690,17 @@ func c17round(c *core.Ctx) {
 			return c17op{"q:ValuesForPath[i]+subkeys", func() string { return fpVals(shared.ValuesForPath(p, sk)) }}
 		case 2:
 			k := pool[r.Intn(len(pool))]
+			if r.Intn(3) == 0 {
+				k = "*"
+				return c17op{"q:ValuesForKey(*)", func() string {
+					vs, e := shared.ValuesForKey(k)
+					s := make([]string, 0, len(vs))
+					for _, v := range vs {
+						s = append(s, jv.Fp(v))
+					}
+					return sortedStrings(s) + fmt.Sprint(e) // (map iteration order decides the order of the hits)
+				}}
+			}
 			return c17op{"q:ValuesForKey", func() string { return fpVals(shared.ValuesForKey(k)) }}
 		case 3:
 			k := pool[r.Intn(len(pool))]
